@@ -39,6 +39,10 @@ def pipe_part(ctx):
     conc = lib.run_go(ctx, "multiplex", "TestVerifC14Concurrent", timeout=600)
     lib.collect_go(ctx, conc)
     ctx.log("concurrent senders on one stream: %d datagrams received, %d violations" % (conc["stats"].get("datagrams_received", 0), len(conc.get("violations", []))))
+    rf = lib.run_go(ctx, "multiplex", "TestVerifC14ReadFrom", timeout=900)
+    lib.collect_go(ctx, rf)
+    ctx.log("ReadFrom relay (sizes up to the per-frame maximum, then concurrent streams): %d datagrams received, %d violations"
+            % (rf["stats"].get("datagrams_received", 0), len(rf.get("violations", []))))
     # the UDP relay around the session: real client.RouteUDP on loopback sockets, concurrent proxy clients
     udp = lib.run_go(ctx, "client", "TestVerifC14RouteUDP", timeout=600)
     lib.collect_go(ctx, udp)
@@ -46,7 +50,7 @@ def pipe_part(ctx):
         raise lib.Inconclusive("RouteUDP rig: no datagram was echoed back (driver problem, not a verdict): %s" % udp.get("notes"))
     ctx.log("RouteUDP: %d datagrams sent, %d echoed, %d violations" % (udp["stats"].get("datagrams_sent", 0),
             udp["stats"].get("datagrams_echoed", 0), len(udp.get("violations", []))))
-    return {"evaluations": res["evaluations"] + udp["evaluations"] + conc["evaluations"],
+    return {"evaluations": res["evaluations"] + udp["evaluations"] + conc["evaluations"] + rf["evaluations"],
             "distinct_nontrivial": res["distinct_nontrivial"] + udp["distinct_nontrivial"] + conc["distinct_nontrivial"],
             "samples": res["samples"][:2] + udp["samples"][:1], "traces": len(g.behaviours),
             "routeudp": {k: v for k, v in udp["stats"].items() if not k.startswith("violations")}}
